@@ -209,18 +209,27 @@ PROPS = {
     ),
     'C07': dict(
         title="all message memory comes from, and returns to, the caller's allocator",
-        modules=['Pbc.Props.C07'],
+        modules=['Pbc.Props.C07', 'Pbc.Props.C07b'],
         theorems=['Pbc.Props.C07.freeMsg_log', 'Pbc.Props.C07.freeVal_log', 'Pbc.Props.C07.freeSlots_log',
-                  'Pbc.Props.C07.foldl_free_log', 'Pbc.Props.C07.first_alloc_refused'],
+                  'Pbc.Props.C07.foldl_free_log', 'Pbc.Props.C07.first_alloc_refused',
+                  # whole-call accounting for every input and refusal schedule (messages without embedded messages / oneofs)
+                  'Pbc.Props.C07.acct_freeMsg', 'Pbc.Props.C07.parseRequiredH_acct', 'Pbc.Props.C07.parseMemberH_acct',
+                  'Pbc.Props.C07.parseAllH_acct', 'Pbc.Props.C07.scanLoopH_acct', 'Pbc.Props.C07.allocArrays_acct',
+                  'Pbc.Props.C07.unpackMsgH_eq', 'Pbc.Props.C07.unpackMsgH_acct', 'Pbc.Props.C07.unpack_fails_clean',
+                  'Pbc.Props.C07.unpack_then_free_clean'],
         refine=[],
         cases=[('alloc', 400, 6000, [])],
         oracle='c07',
     ),
     'C08': dict(
         title='a refused allocation at any point fails cleanly',
-        modules=['Pbc.Props.C07', 'Pbc.Props.C18'],
+        modules=['Pbc.Props.C07', 'Pbc.Props.C07b', 'Pbc.Props.C18'],
         theorems=['Pbc.Props.C07.freeMsg_log', 'Pbc.Props.C07.first_alloc_refused', 'Pbc.Props.C18.append_inv',
-                  'Pbc.Props.C18.append_log'],
+                  'Pbc.Props.C18.append_log',
+                  'Pbc.Props.C07.acct_freeMsg', 'Pbc.Props.C07.parseRequiredH_acct', 'Pbc.Props.C07.parseMemberH_acct',
+                  'Pbc.Props.C07.parseAllH_acct', 'Pbc.Props.C07.scanLoopH_acct', 'Pbc.Props.C07.allocArrays_acct',
+                  'Pbc.Props.C07.unpackMsgH_eq', 'Pbc.Props.C07.unpackMsgH_acct', 'Pbc.Props.C07.unpack_fails_clean',
+                  'Pbc.Props.C07.unpack_then_free_clean'],
         refine=[],
         cases=[('fault', 40, 400, []), ('append', 100, 1000, [])],
         oracle='c08',
